@@ -19,6 +19,7 @@ DECIDES += (' [ABSTRACT INTERPRETATION, exact] LA3: on symbolic 3 x 3 matrices (
 
 MODS = ('linalg', '_linalg')
 DECIDES += (' PV4: matrix_pivot, which touches entries only through abs() and comparisons, interpreted on one matrix of every weak order of the column magnitudes (n = 1..3, ties, zero columns): P is a permutation matrix, the result is P A with maximal pivots, the sign is the signature, the input is untouched.')
+DECIDES += (' VN2: vector_normalize / vector_magnitude on symbolic vectors.')
 
 
 def site(fi, node):
